@@ -431,3 +431,63 @@ def _constraints(steps, plain_params):
                 return None  # contradictory tests of one parameter: not a path
             cons[t.id] = pol
     return cons
+
+
+# --------------------------------------------------------------------------- TermFlow helpers
+def unver(k):
+    """Strip TermFlow's object-version wrappers from a key: `x«m(args)»` (object after an opaque call made
+    for its effect) and `x«.a=v»` (object after a property store) both denote the object x for rules
+    that only ask *which* object an event is about."""
+    from .termflow import Poly, _is_polykey, key_atom, poly_from_key
+
+    if not isinstance(k, tuple):
+        return k
+    if _is_polykey(k):
+        terms = {}
+        for mono, coef in k[1:]:
+            m2 = tuple(sorted(((unver(a), p) for a, p in mono), key=repr))
+            terms[m2] = terms.get(m2, 0) + coef
+        return Poly(terms).key()
+    if k and k[0] == "upd" and len(k) >= 3:
+        b = key_atom(unver(k[2]))
+        if b is not None:
+            return b
+    if k and k[0] == "after" and len(k) >= 2:
+        b = key_atom(unver(k[1]))
+        if b is not None:
+            return b
+    return tuple(unver(x) for x in k)
+
+
+def unver_value(v):
+    """Abstract value with version wrappers stripped (Poly / ATuple / AList / ADict / guard keys)."""
+    from .termflow import ADict, AList, ATuple, Poly, poly_from_key
+
+    if isinstance(v, Poly):
+        return poly_from_key(unver(v.key()))
+    if isinstance(v, ATuple):
+        return ATuple([unver_value(x) for x in v.items])
+    if isinstance(v, AList):
+        return AList([unver_value(x) for x in v.items], [unver(d) for d in v.doms])
+    if isinstance(v, ADict):
+        d = ADict(doms=[unver(x) for x in v.doms])
+        for kk, (kv, vv) in v.items.items():
+            kv2 = unver_value(kv)
+            from .termflow import vkey
+
+            d.items[vkey(kv2)] = (kv2, unver_value(vv))
+        return d
+    if isinstance(v, tuple):
+        return unver(v)
+    return v
+
+
+def plain_events(events):
+    """Copies of TermFlow events with version wrappers stripped from receiver, arguments and guards."""
+    from .termflow import Event
+
+    out = []
+    for e in events:
+        kw = {k: (unver_value(x) if k != "attr" else x) for k, x in e.kwargs.items()}
+        out.append(Event(e.name, [unver_value(a) for a in e.args], kw, [unver(g) for g in e.guards], e.node, recv=unver_value(e.recv) if e.recv is not None else None))
+    return out
